@@ -461,6 +461,9 @@ def idxTy (decls : List Decl) (t k : Ty) : Option Ty :=
     let per := (conjs decls 20 t).map fun c =>
       match (c.filter fun a => !isTop a) with
       | [.array e] => if ks.all (fun k => match k with | .inr _ => true | _ => false) then some [e] else none
+      -- a string indexed by a number is a string (`"ab"[0]`, `string[number]`)
+      | [.lit (.str _)] | [.kw "string"] =>
+        if ks.all (fun k => match k with | .inr _ => true | _ => false) then some [.kw "string"] else none
       | [.tuple pre rest] =>
         ks.mapM fun k => match k with
           | .inr (some n) => (match Sem.natOfCanonS n with
